@@ -7,7 +7,7 @@
 //	R3 time.Now()           -> simrt.Now()
 //	R4 simrt.Step(site)     at every function entry and every for body
 //	R5 (-stmt-yields)       simrt.Step(site) before every statement of every block
-//	R7                      simrt.Sync(site) before every statement that performs a sync/atomic operation
+//	R7                      simrt.Sync(site) before every statement that performs a sync/atomic operation or calls a method of package sync (sync.Map ...)
 //	R6 sync.Mutex/RWMutex/Once -> simrt.Mutex/RWMutex/Once (a blocking task parks and passes the turn)
 //
 // All rewrites are byte-range splices on the original source, so formatting,
@@ -450,7 +450,29 @@ func (c *fileCtx) isAtomicCall(call *ast.CallExpr) bool {
 		return false
 	}
 	fn, ok := c.p.TypesInfo.Uses[id].(*types.Func)
-	return ok && fn.Pkg() != nil && fn.Pkg().Path() == "sync/atomic"
+	if !ok || fn.Pkg() == nil {
+		return false
+	}
+	// sync/atomic, and what is left of package sync after R1/R6 (sync.Map methods above all)
+	if fn.Pkg().Path() == "sync/atomic" {
+		return true
+	}
+	if fn.Pkg().Path() != "sync" {
+		return false
+	}
+	if sig, ok := fn.Type().(*types.Signature); ok && sig.Recv() != nil {
+		t := sig.Recv().Type()
+		if pt, ok := t.(*types.Pointer); ok {
+			t = pt.Elem()
+		}
+		if nt, ok := t.(*types.Named); ok {
+			switch nt.Obj().Name() {
+			case "Mutex", "RWMutex", "Once", "Pool":
+				return false // replaced by R1/R6; the simulated types mark their own synchronisation points
+			}
+		}
+	}
+	return true
 }
 
 func recvName(e ast.Expr) string {
